@@ -74,6 +74,16 @@ def sameFunctionUnder (b r : Arr) (g : Nat → Option Nat) : Bool := Id.run do
 
 def firstFail (xs : List (Option String)) : Option String := xs.findSome? id
 
+/-- `g` is defined and strictly increasing on the variables tested by the decision nodes of `b` (images below the
+    walk's sentinel). Only then is a REJECT of `sameFunctionUnder` conclusive (`ExactWalk.sameFunctionUnder_reject`): for a
+    renaming that is not increasing the walk follows paths that are not valuations and rejects equal functions (two
+    counterexamples are proved in Lemmas/ExactWalkC17Complete.lean). Its ACCEPT is sound for every `g`. -/
+def increasingOnTested (b : Arr) (g : Nat → Option Nat) : Bool :=
+  let vars := ((b.toList.drop 2).map (·.var)).mergeSort (· ≤ ·) |>.eraseDups
+  let imgs := vars.map g
+  imgs.all (fun o => match o with | some y => y < 1000000 | none => false) &&
+  (imgs.zip (imgs.drop 1)).all fun (a, c) => match a, c with | some x, some y => x < y | _, _ => false
+
 /-- the statement's clauses: `r` is a valid diagram over `m` variables and `r(v) = b(v ∘ g)` on all valuations of
     the first `N` variables -/
 def checkResult (b r : Arr) (m N : Nat) (g : Nat → Option Nat) : Option String :=
@@ -81,7 +91,7 @@ def checkResult (b r : Arr) (m N : Nat) (g : Nat → Option Nat) : Option String
     if wfoB r m then none else some "result-not-a-valid-diagram",
     if N > maxTT then
       (if N > 4096 then none else
-        if isReduced b && isReduced r && !sameFunctionUnder b r g then some "function-changed(exact walk)" else
+        if isReduced b && isReduced r && increasingOnTested b g && !sameFunctionUnder b r g then some "function-changed(exact walk)" else
         if (List.range samples).all fun k =>
           let v := sampleVal N k
           evalArr r v == evalArr b (fun x => match g x with | some y => (decide (y < N) && v y) | none => false)
